@@ -33,6 +33,8 @@ fn l(lst: List[u64], v: u64) -> u64 { let n = lst.len(); ye(7); lst.push(v); ye(
 fn fc(cs: List[char]) -> String { String.from_chars(cs) }
 fn jn(ss: List[String]) -> String { ss.join(\"-\") }
 fn cat(a: List[char], b: List[char]) -> String { String.from_chars(a + b) }
+fn eqq(x: List[u64], y: List[u64]) -> bool { x == y }
+fn cc(x: List[u64], y: List[u64]) -> u64 { (x + y).len() }
 ";
 
 #[derive(Clone, Copy, Debug, PartialEq, Eq, PartialOrd, Ord)]
@@ -50,11 +52,17 @@ enum Op {
     Join,         // script: shared List[String].join("-")
     SwapStrs,     // Rust: swap(0, 2) on the shared List[String]
     CatChars,     // script: String.from_chars(cs + cs)
+    EqAB,         // script: a == b on two shared lists (takes both list locks)
+    EqBA,         // script: b == a (the same two lists, operands swapped)
+    CatAB,        // script: (a + b).len()
+    CatBA,        // script: (b + a).len()
 }
 
 const MENU_QUICK: [Op; 5] = [Op::CallT, Op::CallL, Op::GetCall, Op::CompileCall, Op::DropPkg];
 /// a built-in that reads a whole shared list must see ONE state of it
 const MENU_LISTS: [Op; 5] = [Op::FromChars, Op::SwapChars, Op::Join, Op::SwapStrs, Op::CatChars];
+/// operations that hold the locks of two shared lists at once, in both operand orders
+const MENU_PAIRS: [Op; 4] = [Op::EqAB, Op::EqBA, Op::CatAB, Op::CatBA];
 const MENU_FULL: [Op; 8] = [
     Op::CallF,
     Op::CallT,
@@ -77,13 +85,24 @@ struct Handles {
     fc: TypedFunc<NoCtx, fn(List<char>) -> RotoString>,
     jn: TypedFunc<NoCtx, fn(List<RotoString>) -> RotoString>,
     cat: TypedFunc<NoCtx, fn(List<char>, List<char>) -> RotoString>,
+    eqq: TypedFunc<NoCtx, fn(List<u64>, List<u64>) -> bool>,
+    cc: TypedFunc<NoCtx, fn(List<u64>, List<u64>) -> u64>,
 }
 
 #[derive(Clone)]
 struct Lists {
     nums: List<u64>,
+    /// a second list of the same type that nobody changes: [5]
+    nums2: List<u64>,
     chars: List<char>,
     strs: List<RotoString>,
+}
+
+/// Address of the shared allocation of a list (`List<T>` is `repr(transparent)`
+/// over one `Arc`, so its first word is that pointer); see C16.
+fn list_addr(l: &List<u64>) -> usize {
+    // SAFETY: reads one word of a live value
+    unsafe { *(l as *const List<u64> as *const usize) }
 }
 
 fn runtime() -> Runtime<NoCtx> {
@@ -108,6 +127,8 @@ fn handles(pkg: &mut Package<NoCtx>) -> Result<Handles, String> {
         fc: pkg.get_function("fc").map_err(|e| e.to_string())?,
         jn: pkg.get_function("jn").map_err(|e| e.to_string())?,
         cat: pkg.get_function("cat").map_err(|e| e.to_string())?,
+        eqq: pkg.get_function("eqq").map_err(|e| e.to_string())?,
+        cc: pkg.get_function("cc").map_err(|e| e.to_string())?,
     })
 }
 
@@ -206,6 +227,20 @@ fn run_op(
             }
         }
         Op::SwapStrs => lists.strs.swap(0, 2),
+        // `nums` is [0] plus pushes, `nums2` is [5]: never equal, at least 2 elements together
+        Op::EqAB | Op::EqBA => {
+            let (a, b) = if op == Op::EqAB { (&lists.nums, &lists.nums2) } else { (&lists.nums2, &lists.nums) };
+            if h.eqq.call(a.clone(), b.clone()) {
+                return Err("two lists that were never equal compared equal".into());
+            }
+        }
+        Op::CatAB | Op::CatBA => {
+            let (a, b) = if op == Op::CatAB { (&lists.nums, &lists.nums2) } else { (&lists.nums2, &lists.nums) };
+            let got = h.cc.call(a.clone(), b.clone());
+            if !(2..=10).contains(&got) {
+                return Err(format!("(a + b).len() = {got}"));
+            }
+        }
     }
     Ok(())
 }
@@ -218,6 +253,8 @@ fn shapes(tier: Tier) -> Vec<(usize, usize, &'static [Op], usize)> {
             (2, 2, &MENU_QUICK[..], 2),
             (2, 1, &MENU_LISTS[..], usize::MAX),
             (2, 2, &MENU_LISTS[..], 2),
+            (2, 1, &MENU_PAIRS[..], usize::MAX),
+            (2, 2, &MENU_PAIRS[..], 2),
         ],
         Tier::Thorough => vec![
             (2, 1, &MENU_FULL[..], usize::MAX),
@@ -226,6 +263,8 @@ fn shapes(tier: Tier) -> Vec<(usize, usize, &'static [Op], usize)> {
             (2, 3, &[Op::CallT, Op::CallL, Op::CompileCall][..], 2),
             (2, 2, &MENU_LISTS[..], usize::MAX),
             (3, 1, &MENU_LISTS[..], usize::MAX),
+            (2, 2, &MENU_PAIRS[..], usize::MAX),
+            (3, 1, &MENU_PAIRS[..], usize::MAX),
         ],
     }
 }
@@ -325,10 +364,15 @@ fn run_program(p: &Program, bound: usize) -> (u64, u64, Vec<Failure>, usize) {
                     (h, Arc::new(Mutex::new(Some(pkg))))
                 }
             };
-            let list: List<u64> = List::new();
+            // the lock order of two lists is their address order: keep it the same in
+            // every execution (`nums` is the lower one), or replays would diverge
+            let (l1, l2): (List<u64>, List<u64>) = (List::new(), List::new());
+            let (list, list2) = if list_addr(&l1) < list_addr(&l2) { (l1, l2) } else { (l2, l1) };
             list.push(0);
+            list2.push(5);
             let lists = Lists {
                 nums: list.clone(),
+                nums2: list2,
                 chars: List::from(vec!['x', 'a', 'y']),
                 strs: List::from(vec![RotoString::from("x"), RotoString::from("a"), RotoString::from("y")]),
             };
